@@ -32,7 +32,7 @@ type pevent struct {
 
 var parkingSites = map[string]bool{
 	"em.s.offer": true, "em.s.closem": true, "em.s.closev": true,
-	"em.w.got": true, "em.w.run": true, "em.w.send": true,
+	"em.w.got": true, "em.w.run": true, "em.w.send": true, "em.w.exit": true,
 	"em.c.recv": true,
 }
 
@@ -138,6 +138,7 @@ const (
 	wAtGot
 	wAtRun
 	wAtSend
+	wAtExit // `range mCh` has ended, the worker is about to return nil
 	wExited
 )
 const (
@@ -202,6 +203,15 @@ func (p *psched) idleWorkers() int {
 		}
 	}
 	return n
+}
+
+func (p *psched) anyBusy() bool {
+	for _, ph := range p.wPhase {
+		if ph == wAtGot || ph == wAtRun || ph == wAtSend {
+			return true
+		}
+	}
+	return false
 }
 
 func (p *psched) allExited() bool {
@@ -280,6 +290,8 @@ func (p *psched) choices() []choice {
 			} else {
 				p.r.Count("proto:worker-blocked-on-full-vCh")
 			}
+		case wAtExit:
+			cs = append(cs, choice{"exit", i})
 		}
 	}
 	if p.cPhase == cParked {
@@ -333,13 +345,13 @@ func (p *psched) exec(ch choice) bool {
 		for j := 0; j < k; j++ {
 			e, ok := c.await(site("em.w.exit"))
 			if !ok {
-				return p.failf("mCh closed but an idle worker did not return")
+				return p.failf("mCh closed but an idle worker did not leave its loop")
 			}
 			i := p.workerIndex(e.g)
 			for len(p.wPhase) <= i {
 				p.wPhase = append(p.wPhase, wIdle)
 			}
-			p.workerExits(e.g)
+			p.wPhase[i] = wAtExit
 		}
 		return p.afterWorkerExit()
 	case "check":
@@ -403,11 +415,21 @@ func (p *psched) exec(ch choice) bool {
 		}
 		if p.mClosed {
 			if _, ok := c.await(func(e pevent) bool { return e.g == g && e.site == "em.w.exit" }); !ok {
-				return p.failf("worker %d: mCh is closed but the worker did not return after its send", ch.w)
+				return p.failf("worker %d: mCh is closed but the worker did not leave its loop after its send", ch.w)
 			}
-			p.workerExits(g)
-			return p.afterWorkerExit()
+			p.wPhase[ch.w] = wAtExit
 		}
+	case "exit":
+		// the worker's `return nil` after `range mCh` ended: a separate step, so
+		// that other workers, the collector and the caller's cancellation can
+		// overtake a worker that is about to return
+		g := p.wG[ch.w]
+		c.release(g)
+		p.workerExits(g)
+		if p.anyBusy() {
+			p.r.Count("proto:worker-returned-while-others-busy")
+		}
+		return p.afterWorkerExit()
 	case "closeV":
 		c.release(p.sG)
 		p.emit("closeV")
@@ -477,7 +499,14 @@ func protoScenario(rnd *hx.Rand, count func(string)) *scenario {
 }
 
 // controlled runs one scenario under a seeded controlled schedule.
-func controlled(r *hx.Run, rnd *hx.Rand, sc *scenario, lim int, injectCancel bool) {
+func controlled(r *hx.Run, rnd *hx.Rand, sc *scenario, lim int, injectCancel bool) int {
+	return controlledAt(r, rnd, sc, lim, injectCancel, -1)
+}
+
+// controlledAt: cancelAt >= 0 cancels the caller's Context exactly before that
+// step of the schedule (used to sweep the cancellation over every step of one
+// seeded schedule). It returns the number of steps the schedule took.
+func controlledAt(r *hx.Run, rnd *hx.Rand, sc *scenario, lim int, injectCancel bool, cancelAt int) int {
 	old := runtime.GOMAXPROCS(lim)
 	defer runtime.GOMAXPROCS(old)
 	w := newWorld(sc, nil)
@@ -506,6 +535,7 @@ func controlled(r *hx.Run, rnd *hx.Rand, sc *scenario, lim int, injectCancel boo
 		res.vr, res.err = matcher.EnrichedMatch(ctx, w.ir, w.matchers, nil, w.store)
 	}()
 	ok := true
+	nsteps := 0
 	e, got := c.await(func(e pevent) bool { return e.site == "em.s.offer" || e.site == "em.s.closem" })
 	if !got {
 		ok = p.failf("sender never reached its loop")
@@ -528,11 +558,17 @@ func controlled(r *hx.Run, rnd *hx.Rand, sc *scenario, lim int, injectCancel boo
 		if p.injectCancel && !p.parentCancelled && rnd.Chance(1, 12) {
 			cs = []choice{{kind: "cancelParent"}}
 		}
+		if steps == cancelAt && !p.parentCancelled {
+			p.exec(choice{kind: "cancelParent"})
+			r.Count("proto:cancel-swept-at=" + p.where())
+			cs = p.choices()
+		}
 		if len(cs) == 0 {
 			ok = p.failf("no goroutine can make a step although not all have returned (sender=%d collector=%d buf=%d/%d)", p.sPhase, p.cPhase, p.buf, p.lim)
 			break
 		}
 		ok = p.exec(cs[rnd.Intn(len(cs))])
+		nsteps++
 	}
 	witness := func() string {
 		return fmt.Sprintf("lim=%d scenario=[%s] schedule=[%s]", lim, strings.Join(sc.lines("")[1:], " | "), strings.Join(p.trace, "; "))
@@ -555,7 +591,7 @@ func controlled(r *hx.Run, rnd *hx.Rand, sc *scenario, lim int, injectCancel boo
 			hangs.Add(1)
 			r.Fail("", "controlled-schedule: "+p.failure+"; the call did not return even after all goroutines were released "+witness())
 		}
-		return
+		return nsteps
 	}
 	var res result
 	select {
@@ -563,7 +599,7 @@ func controlled(r *hx.Run, rnd *hx.Rand, sc *scenario, lim int, injectCancel boo
 	case <-time.After(callTimeout):
 		close(c.abort)
 		r.Fail("", "controlled-schedule: every goroutine of the matching phase returned but EnrichedMatch did not "+witness())
-		return
+		return nsteps
 	}
 	close(c.abort)
 	r.Op("p-final", fmt.Sprintf("final=1 err=%d collected=%d", b2i(res.err != nil || res.panic), p.collected), true)
@@ -587,4 +623,27 @@ func controlled(r *hx.Run, rnd *hx.Rand, sc *scenario, lim int, injectCancel boo
 	for _, f := range oracle(w, res) {
 		r.Fail(f[0], "controlled-schedule: "+f[1]+" "+witness())
 	}
+	return nsteps
+}
+
+// where names the hook situation a swept cancellation hits: the phase of the
+// sender and whether workers are busy.
+func (p *psched) where() string {
+	s := [...]string{"sender-at-offer", "sender-at-closeM", "sender-in-Wait", "sender-at-closeV", "sender-done"}[p.sPhase]
+	busy, exiting := 0, 0
+	for _, ph := range p.wPhase {
+		switch ph {
+		case wAtGot, wAtRun, wAtSend:
+			busy++
+		case wAtExit:
+			exiting++
+		}
+	}
+	if busy > 0 {
+		s += "+busy-workers"
+	}
+	if exiting > 0 {
+		s += "+workers-at-exit"
+	}
+	return s
 }
